@@ -10,6 +10,7 @@ import Pastel.Model.Ansi
 import Pastel.Generated.AnsiTable
 import Pastel.RealInst
 import Pastel.Lemmas.MinBy
+import Pastel.FloatFns
 
 namespace Pastel.C12
 open Pastel
@@ -87,5 +88,9 @@ theorem truncated_key_near_optimal (d1 d2 : ℝ) (_h1 : 0 ≤ d1) (_h2 : 0 ≤ d
 theorem palette_colour_near_itself (d1 : ℝ) (h1 : 0 ≤ d1) (hk : ⌊d1⌋ ≤ ⌊(0 : ℝ)⌋) : d1 < 1 := by
   have := truncated_key_near_optimal d1 0 h1 (le_refl 0) hk
   linarith
+
+
+/-- On IEEE floats: the code is in `16..=255` whatever the colour's fields are (NaN included). -/
+theorem float_toAnsi_in_range (c : Color Float) : 16 ≤ toAnsi c ∧ toAnsi c ≤ 255 := toAnsi_in_range c
 
 end Pastel.C12
